@@ -582,3 +582,61 @@ pub fn gen_n2_pair(rng: &mut Rng, f32_run: bool) -> PairCase {
     let subj1 = rng.below(2) == 0;
     PairCase { s1: ((x1, y_top), (x2, 0.0)), s2: ((x1 - 1.0 - rng.below(4) as f64, y), (x1 + 1.0 + rng.below(4) as f64, y)), subj1, subj2: !subj1, in_out1: false, in_out2: false, f32_run }
 }
+
+
+/// Two-call history on the same events, as the sweep produces it: first two collinear segments of different operands
+/// that start at a common point (the call types them as a coincident pair and cuts the longer one), then a third segment
+/// that properly crosses the common piece. The state the first call leaves on the events (edge types, new partners) must
+/// not change how the second call treats a crossing: both segments are cut at one common point, within tolerance of the
+/// exact crossing point, in either argument order, and for either member of the pair.
+pub fn check_two_call_history(rng: &mut Rng, st: &mut PiStats) -> Result<(), String> {
+    let p = (rng.range(-50, 50) as f64, rng.range(-50, 50) as f64);
+    let d = (rng.range(1, 6) as f64, rng.range(-6, 6) as f64);
+    let (ka, kb) = (rng.range(2, 9) as f64, rng.range(2, 9) as f64);
+    let kmin = ka.min(kb);
+    let j = rng.range(1, kmin as i64 - 1).max(1) as f64;
+    if j >= kmin {
+        return Ok(());
+    }
+    let a: Seg = (p, (p.0 + ka * d.0, p.1 + ka * d.1));
+    let b: Seg = (p, (p.0 + kb * d.0, p.1 + kb * d.1));
+    let x = (p.0 + j * d.0, p.1 + j * d.1);
+    // a direction that is not parallel to d
+    let mut e = (rng.range(-5, 5) as f64, rng.range(-5, 5) as f64);
+    if e.0 * d.1 - e.1 * d.0 == 0.0 {
+        e = (-d.1, d.0);
+    }
+    let (m1, m2) = (rng.range(1, 4) as f64, rng.range(1, 4) as f64);
+    let c: Seg = ((x.0 - m1 * e.0, x.1 - m1 * e.1), (x.0 + m2 * e.0, x.1 + m2 * e.1));
+    if seg_rel(norm_seg(c), norm_seg((p, (p.0 + kmin * d.0, p.1 + kmin * d.1)))) != Rel::Cross {
+        return Ok(());
+    }
+    let a_is_subject = rng.below(2) == 0;
+    let c_is_subject = rng.below(2) == 0;
+    let which_twin = rng.below(2) == 0; // the second call uses A's or B's piece
+    let c_first = rng.below(2) == 0;
+    let (la, _ra) = mk::<f64>(a, a_is_subject, rng.below(2) == 0, 1);
+    let (lb, _rb) = mk::<f64>(b, !a_is_subject, rng.below(2) == 0, 2);
+    let (lc, _rc) = mk::<f64>(c, c_is_subject, rng.below(2) == 0, 3);
+    let mut q: BinaryHeap<Ev<f64>> = BinaryHeap::new();
+    let rc1 = if rng.below(2) == 0 { possible_intersection(&la, &lb, &mut q) } else { possible_intersection(&lb, &la, &mut q) };
+    let desc = || format!("A={:?} B={:?} (collinear, different operands, common left endpoint) then C={:?} crossing the common piece at {:?}; second call on the piece of {} with C {}", a, b, c, x, if which_twin { "A" } else { "B" }, if c_first { "first" } else { "second" });
+    if rc1 != 2 {
+        return Err(format!("first call returned {} for an overlapping pair with a common left endpoint: {}", rc1, desc()));
+    }
+    let piece = if which_twin { la.clone() } else { lb.clone() };
+    // same operand as C: the step still has to cut at a proper crossing (self-crossing operands are read even-odd)
+    let before = q.len();
+    let rc2 = if c_first { possible_intersection(&lc, &piece, &mut q) } else { possible_intersection(&piece, &lc, &mut q) };
+    st.followups += 1;
+    bump(st, "two-call-histories".into());
+    let end_of = |l: &Ev<f64>| l.get_other_event().map(|o| pt(&o));
+    let near = |q: Option<Pt>| q.map(|q| (q.0 - x.0).abs() <= 1e-9 && (q.1 - x.1).abs() <= 1e-9).unwrap_or(false);
+    if rc2 == 0 || !near(end_of(&piece)) || !near(end_of(&lc)) || end_of(&piece) != end_of(&lc) || q.len() != before + 4 {
+        return Err(format!(
+            "second call of a two-call history: return {}, the piece now ends at {:?}, C now ends at {:?}, {} events queued (expected both cut at {:?}, 4 events): {}",
+            rc2, end_of(&piece), end_of(&lc), q.len() - before, x, desc()
+        ));
+    }
+    Ok(())
+}
